@@ -142,8 +142,20 @@ impl<'a> ScopeGen<'a> {
                     (v, 0)
                 }
             }
-            RegKind::Dimen => (v % 16000, 0),
-            RegKind::Skip => (v % 16000, 1 + (v % 7)),
+            RegKind::Dimen => {
+                if self.rng.chance(1, 3) {
+                    (-(v % 16000), 0)
+                } else {
+                    (v % 16000, 0)
+                }
+            }
+            RegKind::Skip => {
+                if self.rng.chance(1, 3) {
+                    (-(v % 16000), -(1 + (v % 7)))
+                } else {
+                    (v % 16000, 1 + (v % 7))
+                }
+            }
             RegKind::Toks => (v, 0),
         }
     }
